@@ -2285,22 +2285,7 @@ func (rl *clientConnReadLoop) processData(f *DataFrame) error {
 		// by the peer? Tough without accumulating too much state.
 
 		// But at least return their flow control:
-		if f.Length > 0 {
-			cc.mu.Lock()
-			ok := cc.inflow.take(f.Length)
-			connAdd := cc.inflow.add(int(f.Length))
-			cc.mu.Unlock()
-			if !ok {
-				return ConnectionError(ErrCodeFlowControl)
-			}
-			if connAdd > 0 {
-				cc.wmu.Lock()
-				cc.fr.WriteWindowUpdate(0, uint32(connAdd))
-				cc.bw.Flush()
-				cc.wmu.Unlock()
-			}
-		}
-		return nil
+		return rl.discardData(f)
 	}
 	if cs.readClosed {
 		cc.logf("protocol error: received DATA after END_STREAM")
@@ -2308,7 +2293,7 @@ func (rl *clientConnReadLoop) processData(f *DataFrame) error {
 			StreamID: f.StreamID,
 			Code:     ErrCodeProtocol,
 		})
-		return nil
+		return rl.discardData(f)
 	}
 	if !cs.pastHeaders {
 		cc.logf("protocol error: received DATA before a HEADERS frame")
@@ -2316,7 +2301,7 @@ func (rl *clientConnReadLoop) processData(f *DataFrame) error {
 			StreamID: f.StreamID,
 			Code:     ErrCodeProtocol,
 		})
-		return nil
+		return rl.discardData(f)
 	}
 	if f.Length > 0 {
 		if cs.isHead && len(data) > 0 {
@@ -2325,7 +2310,7 @@ func (rl *clientConnReadLoop) processData(f *DataFrame) error {
 				StreamID: f.StreamID,
 				Code:     ErrCodeProtocol,
 			})
-			return nil
+			return rl.discardData(f)
 		}
 		// Check connection-level flow control.
 		cc.mu.Lock()
@@ -2378,6 +2363,31 @@ func (rl *clientConnReadLoop) processData(f *DataFrame) error {
 
 	if f.StreamEnded() {
 		rl.endStream(cs)
+	}
+	return nil
+}
+
+// discardData accounts for a DATA frame which is not delivered to a stream:
+// the frame still counts against the connection-level flow control window
+// the peer was given, and since its contents will never be read the
+// consumed window is returned to the peer right away.
+func (rl *clientConnReadLoop) discardData(f *DataFrame) error {
+	if f.Length == 0 {
+		return nil
+	}
+	cc := rl.cc
+	cc.mu.Lock()
+	ok := cc.inflow.take(f.Length)
+	connAdd := cc.inflow.add(int(f.Length))
+	cc.mu.Unlock()
+	if !ok {
+		return ConnectionError(ErrCodeFlowControl)
+	}
+	if connAdd > 0 {
+		cc.wmu.Lock()
+		cc.fr.WriteWindowUpdate(0, uint32(connAdd))
+		cc.bw.Flush()
+		cc.wmu.Unlock()
 	}
 	return nil
 }
